@@ -657,6 +657,27 @@ func (w *c16Worker) flagCase(T reflect.Type, tmpl reflect.Value, dt *dials.Type,
 		return
 	}
 	w.count(fmt.Sprintf("%s/flags_registered=%d", pkg, min(len(flags), 12)))
+	if p && r.Chance(35) {
+		// the application's own FlagSet: some of the names and some of the shorthand letters are taken already
+		// (a cobra command's -v), and a second dials Set is built on the same FlagSet afterwards
+		cl, det := guard(func() error {
+			fs := spf13NewFlagSet()
+			for i, f := range flags {
+				if r.Chance(20) {
+					fs.String(f.name, "", "pre-registered by the application")
+				} else if f.short != "" && r.Chance(60) {
+					fs.BoolP(fmt.Sprintf("app-pre-%d", i), f.short, false, "pre-registered by the application")
+				}
+			}
+			ncfg := &dpflag.NameConfig{FieldNameEncodeCasing: cc.EncodeUpperCamelCase, TagEncodeCasing: tagEnc}
+			if _, err := dpflag.NewSetWithFlagSet(ncfg, newTmpl(), fs); err != nil {
+				return err
+			}
+			_, err := dpflag.NewSetWithFlagSet(ncfg, newTmpl(), fs)
+			return err
+		})
+		w.report("pflag.NewSetWithFlagSet(pre-registered, twice)", cl, det, ft, cs)
+	}
 	// leaf types by flattened position are not needed: texts are drawn per flag helper type name
 	var args []string
 	for _, f := range flags {
@@ -838,7 +859,7 @@ func configOf[T any](w *c16Worker, ft *c16Feat, cs map[string]any) {
 }
 
 var c16Config = map[reflect.Type]func(*c16Worker, *c16Feat, map[string]any){
-	rt[C16Server](): configOf[C16Server], rt[C16Embed](): configOf[C16Embed], rt[C16Ptrs](): configOf[C16Ptrs], rt[C16Nested](): configOf[C16Nested], rt[C16Flat](): configOf[C16Flat],
+	rt[C16Server](): configOf[C16Server], rt[C16Embed](): configOf[C16Embed], rt[C16Ptrs](): configOf[C16Ptrs], rt[C16Nested](): configOf[C16Nested], rt[C16Flat](): configOf[C16Flat], rt[C16Elems](): configOf[C16Elems],
 }
 
 func (w *c16Worker) configCase(T reflect.Type, ft *c16Feat, cs map[string]any) {
